@@ -8,6 +8,8 @@ import world
 
 NAMES = ['a', 'b', 'c', 'd']
 BADNAMES = ['1x', 'a b', 'class', 'x = y', 'a.b', 'a, b', '']
+# identifiers that differ only in unicode normal form (MICRO SIGN vs GREEK MU, precomposed vs combining accent): distinct names
+UNINAMES = ['\u00b5V', '\u03bcV', '\u00e9', 'e\u0301']
 
 VALS = {
     'KMixed': [0, 1, 2, 3, -1, 7, 2.5, -0.5, float('nan'), float('inf'), 'a', 'b', 'zz', 'A', '', '10', '2.5', 'nan',
@@ -198,6 +200,33 @@ def plan_lookup_grow(rng, r, max_pool, max_rows):
     return ops
 
 
+def plan_merge_grow_merge(rng, r, max_pool, max_rows):
+    """Directed plan: a table is used as the LEFT operand of a merge (per-column caches of its rows get filled), then
+    it is grown in place and the new rows are written, a relative of the grown table is taken and given other values,
+    and the two are merged again: rows present in both take their cells from the left operand, the new rows included."""
+    P = r.pool
+    cands = [i for i, q in enumerate(P) if 2 <= len(q) < max_rows - 1 and [c for c in col_kinds(q) if c[1] is not None]]
+    if not cands or len(P) + 4 > max_pool + 3:
+        return None
+    ti = rng.choice(cands)
+    dm = P[ti]
+    n = len(dm)
+    name, kind = rng.choice([(nm, kd) for nm, kd in col_kinds(dm) if kd is not None])
+    base = len(P)
+    k = rng.randint(1, 2)
+    val = lambda: pyobs.enc(pick_value(rng, kind, 0))
+    ops = [{'op': 'merge', 'mop': rng.choice(['MOr', 'MAnd']), 't': ti, 't2': ti},                      # -> base
+           {'op': 'setlength', 't': ti, 'n': n + k},
+           {'op': 'setcell', 't': ti, 'name': name, 'addr': {'k': 'slice', 'a': n, 'b': None},
+            'rhs': {'k': 'seq', 'vs': [val() for _ in range(k)]}},
+           {'op': 'slice', 't': ti, 'a': rng.choice([0, 1, n - 1]), 'b': None},                            # -> base + 1
+           {'op': 'setcell', 't': base + 1, 'name': name, 'addr': {'k': 'slice', 'a': None, 'b': None},
+            'rhs': {'k': 'scalar', 'v': val()}},
+           {'op': 'merge', 'mop': 'MOr', 't': ti, 't2': base + 1},
+           {'op': 'merge', 'mop': 'MAnd', 't': ti, 't2': base + 1}]
+    return ops
+
+
 def gen_op(rng, r, weights, bad_rate=0.08, max_pool=7, max_rows=9):
     """Choose the next operation given the runner's live pool."""
     P = r.pool
@@ -208,6 +237,11 @@ def gen_op(rng, r, weights, bad_rate=0.08, max_pool=7, max_rows=9):
         return plan.pop(0)
     if weights.get('merge', 0) >= 10 and len(P) + 3 <= max_pool and rng.random() < 0.12:
         made = plan_merge(rng, r)
+        if made:
+            r.plan = made[1:]
+            return made[0]
+    if weights.get('merge', 0) >= 3 and weights.get('setlength', 0) >= 1 and rng.random() < 0.03:
+        made = plan_merge_grow_merge(rng, r, max_pool, max_rows)
         if made:
             r.plan = made[1:]
             return made[0]
@@ -385,6 +419,8 @@ def gen_op(rng, r, weights, bad_rate=0.08, max_pool=7, max_rows=9):
         if k == 'rename':
             old = rng.choice([c[0] for c in cols]) if cols and rng.random() > bad_rate else rng.choice(NAMES)
             new = rng.choice(NAMES + ['e', 'f']) if rng.random() > bad_rate else rng.choice(BADNAMES)
+            if rng.random() < 0.12:
+                new = rng.choice(UNINAMES)
             if rng.random() < 0.08:
                 new = old          # rename to itself: nothing happens, but a missing column is still an error
             return {'op': 'rename', 't': ti, 'old': old, 'new': new}
